@@ -1,5 +1,5 @@
 (* Extraction of the convolution model (C14). ExtrOcamlBasic only; no Extract Constant / Extract Inductive of our own. *)
 From Coq Require Import ExtrOcamlBasic.
 From PS Require Import Arith EvalModel ConvModel.
-Extraction "convmodel.ml" QcA convolve convolve_signflip convolve_shipped isort factorial factorial_shipped norm_with trafo_matrix trafo_entry
+Extraction "convmodel.ml" QcA convolve convolve_signflip convolve_shipped convolve_rows convolve_rows_signflip convolve_rows_shipped isort factorial factorial_shipped norm_with trafo_matrix trafo_entry
   pairwise_sums wf_table.
